@@ -1515,9 +1515,84 @@ class Evaluator:
             cont = self.exec_block(s.finalbody, st) and cont
         return cont
 
+    def _generator_cm(self, expr, st):
+        """(callee, positional, keyword, self) when `expr` calls a repository function decorated with contextlib.contextmanager"""
+        if not isinstance(expr, ast.Call) or any(isinstance(a, ast.Starred) for a in expr.args) or any(k.arg is None for k in expr.keywords):
+            return None
+        try:
+            fnv = self.eval(expr.func, st, quiet=True)
+        except Exception:
+            return None
+        if not (isinstance(fnv, Fn) and fnv.fkind == 'repo'):
+            return None
+        fi = fnv.ref
+        if not any(ast.unparse(d).split('(')[0].split('.')[-1] == 'contextmanager' for d in getattr(fi.node, 'decorator_list', [])):
+            return None
+        return fi, [self.eval(a, st) for a in expr.args], {k.arg: self.eval(k.value, st) for k in expr.keywords}, fnv.self_val
+
+    @staticmethod
+    def _split_at_yield(fi):
+        """(statements run on entry, yielded expression or None, statements run on exit) of a generator-based context manager of one of the shapes
+        `before; yield v; after` and `before; try: ...; yield v; ... finally: cleanup`; None for any other shape"""
+        body = list(fi.body_nodes())
+        if body and isinstance(body[0], ast.Expr) and isinstance(body[0].value, ast.Constant) and isinstance(body[0].value.value, str):
+            body = body[1:]
+        nyield = sum(1 for st_ in body for n_ in ast.walk(st_) if isinstance(n_, (ast.Yield, ast.YieldFrom)))
+        if nyield != 1:
+            return None
+
+        def yielded(st_):
+            v = st_.value if isinstance(st_, (ast.Expr, ast.Assign)) else None
+            return v if isinstance(v, ast.Yield) else None
+        for i, st_ in enumerate(body):
+            y = yielded(st_)
+            if y is not None and isinstance(st_, ast.Expr):
+                return body[:i], y.value, body[i + 1:]
+            if isinstance(st_, ast.Try) and not st_.handlers and not st_.orelse and any(isinstance(n_, ast.Yield) for n_ in ast.walk(st_)):
+                for j, in_ in enumerate(st_.body):
+                    y = yielded(in_)
+                    if y is not None and isinstance(in_, ast.Expr):
+                        return body[:i] + st_.body[:j], y.value, st_.body[j + 1:] + st_.finalbody + body[i + 1:]
+                return None
+        return None
+
+    def _run_cm_part(self, fi, stmts, sub, st, yexpr=None):
+        fr = Frame(fi, fi.module, fi.cls)
+        fr.caller_env = st.env
+        sub.heap, sub.guard = st.heap, st.guard
+        self.frames.append(fr)
+        self.depth += 1
+        out = NONE
+        try:
+            self.exec_block(stmts, sub)
+            if yexpr is not None:
+                out = self.eval(yexpr, sub)
+        finally:
+            self.depth -= 1
+            self.frames.pop()
+        st.heap = sub.heap
+        return out
+
     def exec_With(self, s, st):
         entered = []
+        pending = []
         for item in s.items:
+            cm = self._generator_cm(item.context_expr, st)
+            parts = self._split_at_yield(cm[0]) if cm is not None else None
+            if cm is not None and parts is None:
+                self.issue(st, s, f"context manager {cm[0].qualname}: generator shape not recognised (expected `yield` once, optionally inside try/finally)")
+            if cm is not None and parts is not None and self.depth < self.max_depth:
+                # a generator-based context manager of the repository: its code up to the `yield` runs on entry, the rest on exit
+                fi, pos, kw, self_val = cm
+                before, yexpr, after = parts
+                env = self._bind(fi, st, pos, kw, None, self_val, s)
+                if env is not None:
+                    sub = State(env, st.heap, st.guard, {})
+                    yv = self._run_cm_part(fi, before, sub, st, yexpr)
+                    if item.optional_vars is not None:
+                        self.assign(item.optional_vars, yv, st, s)
+                    pending.append((fi, sub, after))
+                    continue
             ctxv = self.eval(item.context_expr, st)
             ev = self.emit('with_enter', st, s, ctx=ctxv)
             entered.append(ev)
@@ -1537,6 +1612,8 @@ class Evaluator:
                     bound_val = ent(ctxv)
                 self.assign(item.optional_vars, bound_val, st, s)
         r = self.exec_block(s.body, st)
+        for fi, sub, after in reversed(pending):
+            self._run_cm_part(fi, after, sub, st)
         for ev in reversed(entered):
             self.emit('with_exit', st, s, ctx=ev.data['ctx'], enter_seq=ev.seq)
         return r
